@@ -1004,7 +1004,12 @@ class Builder(object):
                     index +=1
 
                 elif connective == 'keep':
-                    keep = max(0, int(Convert2Num(tokens[index])))
+                    try:
+                        keep = max(0, int(Convert2Num(tokens[index])))
+                    except (TypeError, ValueError, OverflowError):  # complex, nan, inf, text
+                        msg = "Error building %s. Bad keep count got %s." %\
+                              (command, tokens[index])
+                        raise excepting.ParseError(msg, tokens, index)
                     index +=1
 
                 elif connective == 'cycle':
